@@ -168,6 +168,28 @@ Definition c13_checkb (eps : Q) (g : net) (names : list nat)
   && check_xkeys g (enum_from 0 names) xk
   && dict_closeb eps plain (spec_mix 1 (pexc (edges g)) (edges g)).
 
+(* The same judgement with the tuple length T as a parameter: annotations may have MORE components
+   than topology names were requested (T >= length names); the matrices of the requested topologies
+   are still keyed by the full excess tuples (2T components). *)
+Definition c13_checkb_T (eps : Q) (T : nat) (g : net) (names : list nat)
+           (calls : list matrices) (xk : list (nat * list key)) (plain : dict) : bool :=
+  Nat.leb (length names) T
+  && valid_netb T g && nnodupb names
+  && negb (Nat.eqb (length calls) 0)
+  && forallb (check_mats eps T g (enum_from 0 names)) calls
+  && forallb (mats_eqb (hd [] calls)) calls
+  && check_xkeys g (enum_from 0 names) xk
+  && dict_closeb eps plain (spec_mix 1 (pexc (edges g)) (edges g)).
+
+(* T = the common length of the annotations (the first one's; [valid_netb] checks the others);
+   a network without vertices has no tuples: any T >= length names does *)
+Definition ann_len (g : net) (names : list nat) : nat :=
+  match jds g with [] => length names | k :: _ => length k end.
+
+Definition c13_checkb_gen (eps : Q) (g : net) (names : list nat)
+           (calls : list matrices) (xk : list (nat * list key)) (plain : dict) : bool :=
+  c13_checkb_T eps (ann_len g names) g names calls xk plain.
+
 (* ---------- wire format ---------- *)
 Definition t_key (t : tree) : key := t_zs t.
 Definition t_edge (t : tree) : edge := (t_nat (t_nth 0 t), t_nat (t_nth 1 t), t_nat (t_nth 2 t)).
@@ -195,5 +217,7 @@ Definition c13_run (t : tree) : tree :=
 Definition c13_check (t : tree) : tree :=
   let names := t_nats (t_nth 0 t) in
   let g := t_net (t_nth 1 t) (t_nth 2 t) in
-  of_bool (c13_checkb (t_q (t_nth 3 t)) g names
+  (* = c13_checkb whenever the annotations have exactly [length names] components
+     (Proofs/MixingGenP.v: c13_checkb_gen_old_domain) *)
+  of_bool (c13_checkb_gen (t_q (t_nth 3 t)) g names
              (map t_mats (t_list (t_nth 4 t))) (t_keyss (t_nth 5 t)) (t_dict (t_nth 6 t))).
